@@ -166,6 +166,14 @@ def random_competition(rnd, N, hj, RVc):
                 # no more regular heights: everybody still in retires or fails out
                 pass
             h = (c.heights[-1] if c.heights else Decimal('1.95')) + Decimal('0.05')
+        if c.heights and c.state != 'jumpoff' and rnd.random() < 0.3:
+            # a request the rules refuse (the bar cannot come down outside a jump-off): part of a legal history, changes nothing
+            low = c.heights[-1] - rnd.choice([Decimal('0.01'), Decimal('0.05'), Decimal('0.10')])
+            try:
+                c.set_bar_height(low)
+                hist.append(('set_bar_height', str(low)))
+            except RVc:
+                hist.append(('set_bar_height', str(low)))
         try:
             c.set_bar_height(h)
             hist.append(('set_bar_height', str(h)))
@@ -321,6 +329,11 @@ def main(tier, seed):
                     J.append(('trial', (m, N, state, bi, tuple(range(N)))))
     for m in ('failed', 'cleared', 'retired'):
         J.append(('trial', (m, 3, 'jumpoff', 0, (0, 1, 2))))
+    # the bar: best' = max(best, bar) is only as good as "the bar is the height last set": set_bar_height must establish it and
+    # a REFUSED request must leave the bar (and everything else) alone - a refused call is part of a legal history
+    for N in (1, 2):
+        for state in HC.STATES if hasattr(HC, 'STATES') else ('scheduled', 'started', 'jumpoff', 'won', 'finished', 'drawn'):
+            J.append(('bar', (N, state)))
     n_each = 1500 if tier == 'quick' else 20000
     J += [('standin', (seed * 1000 + i, n_each // 8, N)) for i in range(8) for N in (2, 3)]
     results = report.pool_map(_work, J)
